@@ -32,6 +32,7 @@ RULE = ('one evaluation = one seeded run: a single-client sequence of 10-120 map
 RULE += ' ' + "Sequences on an Index obtained from a FanoutCache / DjangoCache also contain the parent's own clear / expire / cull / evict / set / delete calls."
 RULE += ' ' + "The parent's calls include looking the same name up again; in 40 % of the runs with a parent the name holds ':' '*' '?' '|' '/' and sibling objects under colliding spellings hold marker items."
 RULE += ' ' + "A pass over items() / values() is interrupted by another handle replacing the last key's value with one kept in a file."
+RULE += ' ' + 'update() sources include an object with keys() and __getitem__ that is no Mapping.'
 ASSUMPTIONS = ['Index.setdefault is checked as the documented get/add loop (insert attempts + final lookup), not as one indivisible step',
                'key alphabet avoids pairs that Python treats as equal but diskcache documents as distinct (True/1, 2**63/2.0**63)']
 PROBES = ('fifo_churn', 'own_temporary_directory', 'lifecycle', 'from_fanout', 'from_django', 'parent_calls', 'named_with_special_characters', 'pass_overlaps_replacement', 'lock_wait', 'file_backed_replace')
@@ -106,7 +107,7 @@ def gen_case(seed, tier):
         elif r < 0.72:
             op = {'op': 'update', 'items': [[rng.choice(keys), rng.choice(SMALL)] for _ in range(rng.randint(0, 3))],
                   # what is handed over: a list of pairs, a generator, a generator that fails after its pairs, a dict, keywords
-                  'src': rng.choice(('list', 'list', 'gen', 'raise', 'dict', 'badpair'))}
+                  'src': rng.choice(('list', 'list', 'gen', 'raise', 'dict', 'badpair', 'keysobj'))}
         elif r < 0.80:
             op = {'op': rng.choice(('keys', 'values', 'items', 'iter', 'reversed', 'len'))}
         elif r < 0.86:
@@ -247,6 +248,18 @@ def apply_both(ix, ref, op, world=None):
                 return dict(pairs)
             if src == 'badpair':
                 return list(pairs) + [('only-one-member',)]
+            if src == 'keysobj':
+                # no Mapping, no iterable of pairs: an object with keys() and __getitem__ (a database row, a message header set)
+                class Row:
+                    def __init__(self, d):
+                        self._d = d
+
+                    def keys(self):
+                        return list(self._d)
+
+                    def __getitem__(self, key):
+                        return self._d[key]
+                return Row(dict(pairs))
 
             def gen():
                 for pair in pairs:
